@@ -32,6 +32,18 @@ def nonblocking(rnd):
     return sc
 
 
+def hanging_candidates(rnd):
+    """several candidates in flight, some of whose tests hang past the timeout, a later one succeeds"""
+    letters = rnd.sample('abcdefgh', rnd.randint(3, 6))
+    hang = set(rnd.sample(letters, rnd.randint(1, len(letters) - 1)))
+    ops = [('delch', ch) for ch in letters]
+    rnd.shuffle(ops)
+    rules = [([('nothas', 0, ch)], 'timeout') for ch in sorted(hang)] + [([], 0)]
+    return {'files': [('f0.c', ''.join(letters))], 'rules': rules,
+            'passes': [{'key': 1, 'ops': ops, 'aos': rnd.choice([0, 1]), 'maxt': None, 'newfix': None}],
+            'cfg': {'N': rnd.choice([2, 3, 4]), 'maxto': 60, 'no_cache': True}, 'sched': [rnd.randint(0, 7) for _ in range(rnd.randint(0, 40))]}
+
+
 def oracle_commits(ctx, sc, o):
     ok0 = {tuple(c) for (c, rc, _w, _l) in o.testlog if rc == 0}
     for d in o.accepted:
@@ -108,11 +120,14 @@ def explore(ctx):
     n = 120 if ctx.quick() else 1200
     corpus = [e['scenario'] for e in json.load(open(os.path.join(os.environ.get('VERIF_ROOT', '/verif'), 'corpus', 'driver.json')))]
     for it in range(n + len(corpus)):
-        prof = 'faults' if it % 2 else ('nonblocking' if it % 4 else 'timeouts')
+        prof = 'faults' if it % 2 else ('nonblocking' if it % 4 else ('timeouts' if it % 8 and it % 12 else 'timeouts-parallel'))
         if it < len(corpus):
             sc, prof = corpus[it], 'corpus'
         else:
             sc = scengen.gen_scenario(rnd, 'faults') if prof == 'faults' else nonblocking(rnd)
+            if prof == 'timeouts-parallel':
+                # hanging candidates among several in flight: a hang only costs its own candidate (the limit is far away)
+                sc = hanging_candidates(rnd)
             if prof == 'timeouts':    # sequential runs with hanging candidates: several rounds, few timeouts each
                 sc['cfg'].update({'N': 1, 'maxto': rnd.choice([1, 2, 3])})
                 sc['rules'] = [(atoms, out if out == 0 or rnd.random() < 0.5 else 'timeout') for atoms, out in sc['rules']]
@@ -126,6 +141,8 @@ def explore(ctx):
             ctx.violation('wedged', 'shim run exceeded the watchdog', {'scenario': sc, 'kind': 'shim'})
         oracle_commits(ctx, sc, o)
         if prof == 'nonblocking':
+            oracle_nonblocking(ctx, sc, o)
+        if prof == 'timeouts-parallel':
             oracle_nonblocking(ctx, sc, o)
         if prof in ('timeouts', 'corpus') and sc['cfg'].get('N') == 1 and 'maxto' in sc['cfg']:
             oracle_nonblocking(ctx, sc, o, maxto=sc['cfg']['maxto'])
